@@ -14,7 +14,9 @@ const gensignPkg = "gensign"
 // gensignModel resolves the anchors of gensign.Run by role.
 type gensignModel struct {
 	w        *World
-	Run      *ssa.Function
+	Run      *ssa.Function // the function doing the run (gensign.Run, or the function a thin Run hands everything to)
+	Wrapper  *ssa.Function // gensign.Run when it is only a wrapper around Run
+	WrapSite *ssa.Call
 	AuthCall *ssa.Call // invoke Handler.Authenticate
 	GenCall  *ssa.Call // invoke Generator.Generate
 	SignCall *ssa.Call // invoke Signer.Sign
@@ -55,6 +57,23 @@ func resolveGensign(w *World) *gensignModel {
 	if m.Run == nil {
 		m.problems = append(m.problems, "gensign.Run")
 		return m
+	}
+	// a thin Run around the function that does the run and owns the recover (timing / logging wrapper): the rules
+	// read that function; C04.R1 checks that nothing that can panic is left outside it and that Run hands its error on
+	if !hasRecoverDefer(w, m.Run) {
+		for _, g := range w.Tree(m.Run) {
+			if g == m.Run || g.Parent() != nil || !hasRecoverDefer(w, g) {
+				continue
+			}
+			sites := w.sitesIn(m.Run, g)
+			if len(sites) != 1 {
+				continue
+			}
+			if site, ok := sites[0].(*ssa.Call); ok && site.Parent() == m.Run {
+				m.Wrapper, m.WrapSite, m.Run = m.Run, site, g
+				break
+			}
+		}
 	}
 	one := func(method, role string) *ssa.Call {
 		cs := w.invokeOfDeep(m.Run, method)
@@ -258,7 +277,7 @@ func runC01(c *Ctx) {
 		}
 		nNo++
 		okKind := true
-		for _, lf := range w.Leaves(r.Results[0], r) {
+		for _, lf := range w.Leaves(r.Results[errorResultIndex(run)], r) {
 			k, ok := errKindOf(lf.Val)
 			if ok && k == m.Kinds["Panic"] {
 				continue // the deferred recover may overwrite the result
@@ -267,7 +286,7 @@ func runC01(c *Ctx) {
 				okKind = false
 			}
 		}
-		c.Check(okKind, "R1.select", "Run|no handler => AllAuthFailed", w.Pos(r.Pos()), "returns an *Error of kind AllAuthFailed", "the no-handler branch does not return an AllAuthFailed error: "+w.Short(r.Results[0]))
+		c.Check(okKind, "R1.select", "Run|no handler => AllAuthFailed", w.Pos(r.Pos()), "returns an *Error of kind AllAuthFailed", "the no-handler branch does not return an AllAuthFailed error: "+w.Short(r.Results[errorResultIndex(run)]))
 	}
 	c.Floor("R1.select", nNo, 1, "return on the no-handler branch")
 
@@ -693,4 +712,29 @@ func (w *World) rootsInFrame(top, g *ssa.Function, rs rootSet) rootSet {
 		g = site.Parent()
 	}
 	return rs
+}
+
+// hasRecoverDefer: g defers a function (closure or named) that itself calls recover().
+func hasRecoverDefer(w *World, g *ssa.Function) bool {
+	for _, call := range callsIn(g) {
+		d, ok := call.(*ssa.Defer)
+		if !ok {
+			continue
+		}
+		var fn *ssa.Function
+		if mc, ok := d.Call.Value.(*ssa.MakeClosure); ok {
+			fn = mc.Fn.(*ssa.Function)
+		} else if h := w.helperOf(d); h != nil {
+			fn = h
+		}
+		if fn == nil {
+			continue
+		}
+		for _, cc := range callsIn(fn) {
+			if b, ok := cc.Common().Value.(*ssa.Builtin); ok && b.Name() == "recover" {
+				return true
+			}
+		}
+	}
+	return false
 }
